@@ -1312,6 +1312,11 @@ class ComplexModelBase(ModelBase):
     def _append_field_impl(cls, field_name, field_type):
         assert isinstance(field_name, string_types)
 
+        # the field is there before its type is customized: when the type is
+        # this class (a variant that is a member of itself), the customized
+        # copy is made from this class and must have the field as well.
+        cls._type_info[field_name] = field_type
+
         dcaa = cls.Attributes._delayed_child_attrs_all
         if dcaa is not None:
             field_type = field_type.customize(**dcaa)
